@@ -213,6 +213,24 @@ func checkMatrix(bm *gozxing.BitMatrix, m *mmodel, r *fw.Rand) string {
 	if got, want := bm.GetEnclosingRectangle(), m.enclosing(); !intsEq(got, want) {
 		return fmt.Sprintf("GetEnclosingRectangle %v, model %v", got, want)
 	}
+	// answers handed out by earlier queries (on this or another matrix) still say what they said
+	for _, k := range c16Kept {
+		if !intsEq(k.got, k.want) {
+			return fmt.Sprintf("the slice returned earlier by %s (%v then) reads %v after later queries", k.what, k.want, k.got)
+		}
+	}
+	if tl := bm.GetTopLeftOnBit(); tl != nil {
+		c16Kept = append(c16Kept, c16KeptAnswer{"GetTopLeftOnBit", tl, append([]int{}, tl...)})
+	}
+	if br := bm.GetBottomRightOnBit(); br != nil {
+		c16Kept = append(c16Kept, c16KeptAnswer{"GetBottomRightOnBit", br, append([]int{}, br...)})
+	}
+	if er := bm.GetEnclosingRectangle(); er != nil {
+		c16Kept = append(c16Kept, c16KeptAnswer{"GetEnclosingRectangle", er, append([]int{}, er...)})
+	}
+	if len(c16Kept) > 12 {
+		c16Kept = c16Kept[len(c16Kept)-12:]
+	}
 	if got, want := bm.GetTopLeftOnBit(), m.topLeft(); !intsEq(got, want) {
 		return fmt.Sprintf("GetTopLeftOnBit %v, model %v", got, want)
 	}
@@ -666,6 +684,13 @@ func c16Array(r *fw.Rec, n, ctor int) {
 				if rng.Intn(4) == 0 {
 					v = int(int32(uint32(v))) // negative values: low bits count
 				}
+				switch rng.Intn(6) {
+				case 0: // all bits clear: the array still has to grow
+					v = 0
+					r.Tally("appendbits_all_zero")
+				case 1:
+					v = 0xFFFFFFFF
+				}
 				trace = append(trace, fmt.Sprintf("AppendBits(%#x,%d)", v, nb))
 				if err := a.AppendBits(v, nb); err != nil {
 					fail("AppendBits with 0..32 bits failed: " + err.Error())
@@ -744,6 +769,15 @@ func c16Array(r *fw.Rec, n, ctor int) {
 	r.Tally("array_sequences")
 }
 
+// c16Kept: the last few slices returned by the corner / rectangle queries, with a copy of what
+// they said when they were returned.
+type c16KeptAnswer struct {
+	what      string
+	got, want []int
+}
+
+var c16Kept []c16KeptAnswer
+
 func c16(c *fw.Ctx) {
 	c.Rule("every BitMatrix shape w in 1..130 x h in 1..8 (all 1040, exhaustive) and every BitArray size 0..200 from both constructors, each with N random operation sequences of 40 steps from the exported API (in-range arguments, word-boundary-biased positions); full state and every query compared with a [][]bool / []bool model after every step; a case is non-trivial when all 40 steps ran, distinct = distinct (shape, operation trace)")
 	c.Assume("the models in worker/c16.go are the specification of a plain bit container (Get outside the matrix is false, as the Go port documents)")
@@ -775,5 +809,6 @@ func c16(c *fw.Ctx) {
 	c.Floor("array_sequences", int64(402*aseq*9/10))
 	c.Floor("setrow_with_wider_row", 500)
 	c.Floor("array_appended_to_itself", 200)
+	c.Floor("appendbits_all_zero", 500)
 	c.Floor("parsed_with_multi_character_line_breaks", 300)
 }
